@@ -114,6 +114,18 @@ func groupConfigs(ns ...int) []GroupCfg {
 	return out
 }
 
+// refilled returns the configurations with the queue-history flag set.
+func refilled(gs []GroupCfg) []GroupCfg {
+	var out []GroupCfg
+	for _, g := range gs {
+		if g.N > 0 {
+			g.Refilled = true
+			out = append(out, g)
+		}
+	}
+	return out
+}
+
 var (
 	pct6   = []uint64{0, 1, 33, 50, 99, 100}
 	tax4   = []string{"0", "0.02", "0.5", "1"}
@@ -131,6 +143,8 @@ func spaces(quick bool) []space {
 		return []space{
 			{Name: "discarded-executions", Discarded: true, Pools: []string{"3", "1000001"}, Pools2: []string{"", "5"}, OPct: []uint64{33}, TPct: []uint64{33}, Tax: []string{"0.02"}, Mint: []bool{false},
 				Powers: [][3]int64{{1, 2, 10}}, Prop: []int{0, 2}, OAct: allFlags3(), Groups: groupConfigs(0, 1, 2), GroupN: "no group; 1,2 members x all flags"},
+			{Name: "tss-refilled-queues", Pools: []string{"3", "1000001"}, Pools2: []string{"", "5"}, OPct: []uint64{0, 33}, TPct: []uint64{1, 33, 100}, Tax: []string{"0.02"}, Mint: []bool{false},
+				Powers: [][3]int64{{1, 2, 10}}, Prop: []int{0}, OAct: [][3]bool{on3}, Groups: refilled(groupConfigs(1, 2, 3)), GroupN: "1,2,3 members x all (active,nonce) flags, queues refilled after a signing consumed the first nonces"},
 			{Name: "oracle", Pools: poolsQ, Pools2: []string{""}, OPct: pct6, TPct: []uint64{50}, Tax: tax4, Mint: []bool{false},
 				Powers: powerVectors([]int64{1, 3, 10}), Prop: []int{0, 1, 2}, OAct: allFlags3(), Groups: []GroupCfg{bothOn}, GroupN: one},
 			{Name: "oracle-multidenom-mint", Pools: []string{"3", "1000001"}, Pools2: []string{"5"}, OPct: []uint64{1, 33, 100}, TPct: []uint64{50}, Tax: []string{"0.02", "0.5"}, Mint: []bool{false, true},
@@ -145,6 +159,8 @@ func spaces(quick bool) []space {
 	return []space{
 		{Name: "discarded-executions", Discarded: true, Pools: []string{"3", "99", "1000001"}, Pools2: []string{"", "5"}, OPct: []uint64{0, 33, 100}, TPct: []uint64{0, 33, 100}, Tax: []string{"0.02"}, Mint: []bool{false, true},
 			Powers: [][3]int64{{1, 1, 1}, {1, 2, 10}}, Prop: []int{0, 1, 2}, OAct: allFlags3(), Groups: groupConfigs(0, 1, 2, 3), GroupN: "no group; 1,2,3 members x all flags"},
+		{Name: "tss-refilled-queues", Pools: []string{"3", "99", "1000001"}, Pools2: []string{"", "5"}, OPct: []uint64{0, 33, 100}, TPct: pct6, Tax: []string{"0", "0.02"}, Mint: []bool{false, true},
+			Powers: [][3]int64{{1, 2, 10}}, Prop: []int{0}, OAct: [][3]bool{on3}, Groups: refilled(groupConfigs(1, 2, 3)), GroupN: "1,2,3 members x all (active,nonce) flags, queues refilled after a signing consumed the first nonces"},
 		{Name: "tss", Pools: poolsX, Pools2: []string{"", "1", "5", "1000003"}, OPct: []uint64{0, 1, 33, 99, 100}, TPct: pct6, Tax: tax5, Mint: []bool{false, true},
 			Powers: [][3]int64{{1, 2, 10}}, Prop: []int{0}, OAct: [][3]bool{on3}, Groups: groupConfigs(0, 1, 2, 3), GroupN: "no group; 1,2,3 members x all (active,nonce) flags"},
 		{Name: "cross", Pools: []string{"3", "99", "1000001", "1000000000000000007"}, Pools2: []string{"", "5"}, OPct: []uint64{0, 33, 50, 100}, TPct: []uint64{0, 33, 50, 100}, Tax: []string{"0", "0.02", "1"}, Mint: []bool{false, true},
